@@ -33,6 +33,11 @@ import QlibcModel.Tree.FaultSpec
 import QlibcModel.Props.C11Seq
 import QlibcModel.Props.C11Map
 import QlibcModel.Props.C11Harr
+import QlibcModel.Shapes.Tree
+import QlibcModel.Shapes.Hashtbl
+import QlibcModel.Shapes.Listtbl
+import QlibcModel.Shapes.Seq
+import QlibcModel.Shapes.Harr
 
 namespace Qlibc.Props.C11
 open Qlibc Qlibc.Tree Qlibc.Tree.T
